@@ -16,12 +16,16 @@ pub enum Item {
     SigB(u32),
     Reply(usize),
     ErrReply(usize),
+    /// a message of a type this version does not know (to be skipped) with a body of some length
+    Unknown(u32),
 }
 
 #[derive(Debug, Clone)]
 pub struct Session {
     pub ncalls: usize,
     pub items: Vec<Item>,
+    /// a caching proxy is being built (its GetAll is never answered) when the transport fails
+    pub proxy: bool,
 }
 
 pub fn session_from(src: &mut Src) -> Session {
@@ -30,9 +34,10 @@ pub fn session_from(src: &mut Src) -> Session {
     let mut items = vec![];
     let mut answered = vec![false; ncalls];
     for i in 0..n {
-        match src.below(4) {
+        match src.below(5) {
             0 => items.push(Item::SigA(i as u32)),
             1 => items.push(Item::SigB(i as u32)),
+            4 => items.push(Item::Unknown(i as u32)),
             _ => {
                 let c = src.below(ncalls);
                 if !answered[c] {
@@ -44,7 +49,8 @@ pub fn session_from(src: &mut Src) -> Session {
             }
         }
     }
-    Session { ncalls, items }
+    let proxy = src.chance(100);
+    Session { ncalls, items, proxy }
 }
 
 fn build_item(peer: &mut Peer, it: &Item, calls: &[RMsg]) -> RMsg {
@@ -53,6 +59,11 @@ fn build_item(peer: &mut Peer, it: &Item, calls: &[RMsg]) -> RMsg {
         Item::SigB(x) => peer.signal("/c38", "c38.B", "Sig", None, vec![RVal::U(*x)]),
         Item::Reply(c) => peer.method_return(&calls[*c], vec![RVal::U(*c as u32)], None),
         Item::ErrReply(c) => peer.error(&calls[*c], "c38.Failed", "no", None),
+        Item::Unknown(x) => {
+            let mut m = peer.signal("/c38", "c38.U", "Odd", None, vec![RVal::U(*x), RVal::S("x".repeat(20 + (*x as usize % 7) * 9))]);
+            m.mtype = 9 + (*x % 5) as u8;
+            m
+        }
     }
 }
 
@@ -182,6 +193,21 @@ pub fn run_session(s: &Session, fault: Fault, schedule: Vec<u8>, lazy: bool) -> 
             g[id] = Some(if g[id].is_some() { Err("COMPLETED-TWICE".into()) } else { v });
         }));
     }
+    let proxy_result: Arc<Mutex<Option<Result<(), String>>>> = Default::default();
+    let proxy_actor = if s.proxy {
+        let c = conn.clone();
+        let pr = proxy_result.clone();
+        Some(sched.spawn("proxy-build", async move {
+            let r: zbus::Result<zbus::Proxy<'static>> = async {
+                zbus::proxy::Builder::new(&c).destination(":1.9")?.path("/c38/p")?.interface("c38.P")?.cache_properties(zbus::proxy::CacheProperties::Yes).build().await
+            }
+            .await;
+            *pr.lock().unwrap() = Some(r.map(|_| ()).map_err(|e| e.to_string()));
+        }))
+    } else {
+        None
+    };
+    let mut getall_out = !s.proxy;
     let mut peer = Peer::new(sh.clone(), false);
     let mut calls: Vec<Option<RMsg>> = vec![None; s.ncalls];
     let mut fed = false;
@@ -212,13 +238,15 @@ pub fn run_session(s: &Session, fault: Fault, schedule: Vec<u8>, lazy: bool) -> 
                 };
                 if id < ncalls {
                     calls[id] = Some(m);
+                } else if m.get_str(msg::F_MEMBER) == Some("GetAll") {
+                    getall_out = true;
                 }
             }
         }
-        let all_out = calls.iter().all(|c| c.is_some());
+        let all_out = calls.iter().all(|c| c.is_some()) && getall_out;
         let write_fault_hit = matches!(fault, Fault::Write { .. }) && {
             let st = peer.sh.lock().unwrap();
-            st.write_plan.is_empty() && st.send_calls > 0 && res2.lock().unwrap().iter().any(|r| r.is_some())
+            st.write_plan.is_empty() && st.send_calls > 0 && (res2.lock().unwrap().iter().any(|r| r.is_some()) || proxy_result.lock().unwrap().is_some())
         };
         if !fed && (all_out || write_fault_hit) {
             fed = true;
@@ -257,7 +285,7 @@ pub fn run_session(s: &Session, fault: Fault, schedule: Vec<u8>, lazy: bool) -> 
             spinning = true;
             return true;
         }
-        call_actors.iter().all(|a| x.done(*a)) && stream_actors.iter().all(|a| x.done(*a))
+        call_actors.iter().all(|a| x.done(*a)) && stream_actors.iter().all(|a| x.done(*a)) && proxy_actor.map(|a| x.done(a)).unwrap_or(true)
     });
     if spinning {
         return Err(Failure::new(format!("the connection keeps reading after the transport reported the end of the stream (more than 64 reads returning end-of-file): pending calls and streams can never complete; session {s:?}, fault {fault:?}")));
@@ -269,7 +297,14 @@ pub fn run_session(s: &Session, fault: Fault, schedule: Vec<u8>, lazy: bool) -> 
     if oc != Outcome::Goal {
         let stuck_calls: Vec<usize> = (0..s.ncalls).filter(|i| got[*i].is_none()).collect();
         let open_streams: Vec<usize> = (0..2).filter(|i| !slog[*i].ended).collect();
-        return Err(Failure::new(format!("after the transport failed, calls {stuck_calls:?} never completed and streams {open_streams:?} never ended ({oc:?}); {}", describe())));
+        let px = if s.proxy && proxy_result.lock().unwrap().is_none() { ", and building a caching proxy (its GetAll pending) never completed" } else { "" };
+        return Err(Failure::new(format!("after the transport failed, calls {stuck_calls:?} never completed and streams {open_streams:?} never ended{px} ({oc:?}); {}", describe())));
+    }
+    if s.proxy {
+        match proxy_result.lock().unwrap().clone() {
+            Some(Err(_)) => {}
+            other => return Err(Failure::new(format!("building a caching proxy whose GetAll was never answered ended with {other:?} after the transport failed; {}", describe()))),
+        }
     }
     // calls
     for id in 0..s.ncalls {
@@ -288,7 +323,9 @@ pub fn run_session(s: &Session, fault: Fault, schedule: Vec<u8>, lazy: bool) -> 
         .map(|i| match i {
             Item::SigA(x) | Item::SigB(x) => *x,
             Item::Reply(c) | Item::ErrReply(c) => 1_000_000 + calls[*c].as_ref().map(|m| m.serial).unwrap_or(0),
+            Item::Unknown(_) => u32::MAX - 1,
         })
+        .filter(|x| *x != u32::MAX - 1)
         .collect();
     let exp1: Vec<u32> = expected_items.iter().filter_map(|i| if let Item::SigA(x) = i { Some(*x) } else { None }).collect();
     for (i, exp) in [exp0, exp1].iter().enumerate() {
